@@ -543,6 +543,7 @@ def run(run: Run):
     from ..callgraph import get_callgraph
     run.rule('C04.R5', 'every cell reference in emitted code is minted by the context for a registered member (shared with C03.R1)')
     borrow(run, 'C04.R5', c03.r1, src, get_grammar(src), get_emission(src), get_callgraph(src))
+    borrow(run, 'C04.R5', c03.r2, src, get_callgraph(src))
     run.floor('C04.R5', 10)
     run.rule('C04.R7', 'no translator specialises the emitted code on the stored value of a referenced cell')
     run.guard('C04.R7', r7_no_value_specialisation, run, src, get_emission(src))
